@@ -8,7 +8,7 @@
 (* "CRel-z"; Probe names pairs whose failures are only counted (System Z is *)
 (* known to violate CInd) -- a witness that the postulates are not vacuous. *)
 (***************************************************************************)
-EXTENDS SynSplit, Universe, Json, IOUtils
+EXTENDS SynSplit, Universe, Json, IOUtils, SequencesExt
 
 CONSTANTS MaxB, FromFile, Thms, Probe, CU, Generalized
 
@@ -23,12 +23,12 @@ NA == Log2(NW)
 FileBases == IF FromFile THEN JsonDeserialize(IOEnv.BASES_FILE) ELSE <<>>
 BaseIdx == IF FromFile THEN {FileBases[i] : i \in DOMAIN FileBases} ELSE BasesUpTo(MaxB)
 
-Ans(o, B, q) ==
-    CASE o = "p" -> PEnt(B, q, WS, FALSE)
-      [] o = "z" -> SysZ(B, q, WS, FALSE)
-      [] o = "w" -> SysW(B, q, WS, FALSE)
-      [] o = "l" -> SysLex(B, q, WS, FALSE)
-      [] o = "c" -> CInf(B, q, WS, CU)
+AnsP(o, B, P, CR, q) ==
+    CASE o = "p" -> PEntP(B, P, q, WS, FALSE)
+      [] o = "z" -> SysZP(B, P, q, WS, FALSE)
+      [] o = "w" -> SysWP(B, P, q, WS, FALSE)
+      [] o = "l" -> SysLexP(B, P, q, WS, FALSE)
+      [] o = "c" -> CInfFrom(CR, B, q, WS)
 
 Post(t) == SubSeq(t, 1, 4)
 OpOf(t) == SubSeq(t, 6, 6)
@@ -37,13 +37,27 @@ SafeSplits(B) ==
     LET At == [k \in DOMAIN B |-> Support(NA, B[k])]
     IN  {sp \in Splittings(NA, At, DOMAIN B) : IsSafe(NA, B, At, sp, WS, Generalized)}
 
+(* only splittings on which a postulate says something: CRel needs a proper non-empty sub-base, CInd a *)
+(* non-empty other side of the signature                                                               *)
 FailingOn(B, names) ==
-    IF ~Strong(B, WS) THEN {}
+    IF ~Strong(B, WS) \/ names = {} THEN {}
     ELSE LET SS == SafeSplits(B)
+             P  == Part(B, WS)
+             CR == IF \E t \in names : OpOf(t) = "c" THEN CReps(B, WS, CU) ELSE {}
          IN  {t \in names :
-                \E sp \in SS :
-                   IF Post(t) = "CRel" THEN ~CRelHolds(NA, B, sp, WS, LAMBDA X, q : Ans(OpOf(t), X, q))
-                   ELSE ~CIndHolds(NA, B, sp, WS, LAMBDA X, q : Ans(OpOf(t), X, q))}
+                \E sp \in SS : \E x \in sp.sides :
+                   IF Post(t) = "CRel"
+                   THEN /\ x.d # {} /\ x.d # DOMAIN B
+                        /\ LET Bs  == Restrict(B, x.d)
+                                Ps  == Part(Bs, WS)
+                                CRs == IF OpOf(t) = "c" THEN CReps(Bs, WS, CU) ELSE {}
+                            IN  ~CRelSide(NA, sp, x, WS, LAMBDA q : AnsP(OpOf(t), B, P, CR, q), LAMBDA q : AnsP(OpOf(t), Bs, Ps, CRs, q))
+                   ELSE \E y \in sp.sides :
+                           /\ y # x /\ y.s # {}
+                           /\ ~CIndSide(NA, sp, x, y, WS, LAMBDA q : AnsP(OpOf(t), B, P, CR, q))}
+
+Informative(B) == IF ~Strong(B, WS) THEN 0
+                  ELSE Cardinality({sp \in SafeSplits(B) : \E x \in sp.sides : x.d # {} /\ x.d # DOMAIN B})
 
 Init == stage = 0 /\ base = <<>> /\ bad = {} /\ probed = {} /\ nsafe = 0
 Pick == stage = 0 /\ base' \in BaseIdx /\ stage' = 1 /\ UNCHANGED <<bad, probed, nsafe>>
@@ -51,11 +65,11 @@ Eval == /\ stage = 1 /\ stage' = 2 /\ UNCHANGED base
         /\ LET B == BaseOf(base)
            IN  /\ bad' = FailingOn(B, Thms)
                /\ probed' = FailingOn(B, Probe)
-               /\ nsafe' = IF Strong(B, WS) THEN Cardinality({sp \in SafeSplits(B) : IsGenuine(sp)}) ELSE 0
+               /\ nsafe' = Informative(B)
 Next == Pick \/ Eval
 Spec == Init /\ [][Next]_vars
 
 PostulatesHold == bad = {}
 (* reported (not required): printed once per base on which a probed pair fails / a genuine safe splitting exists *)
-Report == (stage = 2 /\ (probed # {} \/ nsafe > 0)) => PrintT(<<"synsplit", base, nsafe, probed>>)
+Report == (stage = 2 /\ (probed # {} \/ nsafe > 0)) => PrintT(ToJson(<<"synsplit", base, nsafe, SetToSeq(probed)>>))
 =============================================================================
